@@ -131,6 +131,14 @@ pub fn pct_threshold(pct: u32, n: usize) -> Option<(String, usize)> {
     let cli = if pct == 100 { "1".to_string() } else { format!("0.{pct:02}") };
     let cli = cli.trim_end_matches('0').to_string();
     let cli = if cli == "0." { "0".to_string() } else { cli };
+    // the same number written in other legal ways
+    let cli = match (pct as usize * 7 + n) % 6 {
+        0 if pct < 100 => cli.trim_start_matches('0').to_string(), // .9
+        1 if pct < 100 => format!("0.{pct:02}"),                    // 0.90
+        2 if pct == 100 => "1.0".to_string(),
+        3 if pct % 10 == 0 && pct < 100 => format!("{}e-1", pct / 10), // 9e-1
+        _ => cli,
+    };
     let f: f64 = cli.parse().ok()?;
     let x = n as f64 * f;
     let num = pct as usize * n;
@@ -1019,9 +1027,15 @@ impl StoreWorkload {
         // files: name -> (sample names in column order)
         let mut files: BTreeMap<String, Vec<String>> = BTreeMap::new();
         let mut fresh = 0usize;
+        // one name in eight lives in a sub-directory (created beforehand; ska does not create it)
+        let mut name_rng = Rng::new(rng.next_u64());
         let mut newname = |p: &str| {
             fresh += 1;
-            format!("{p}{fresh}")
+            if name_rng.below(8) == 0 {
+                format!("o/{p}{fresh}")
+            } else {
+                format!("{p}{fresh}")
+            }
         };
         let sname = |i: usize| samples[i].name.clone();
 
@@ -1381,6 +1395,7 @@ impl Workload for StoreWorkload {
         for (n, d) in &c.extra {
             ctx.dir.write(n, d.as_bytes());
         }
+        let _ = std::fs::create_dir_all(ctx.dir.p("o"));
         let mut ex = Exec { dir: &ctx.dir, c, log: vec![format!("store case focus={} samples={} ops={}", c.focus, c.samples.len(), c.ops.len())], nproc: 0, store: BTreeMap::new(), weed_sets: BTreeMap::new() };
         let mut out = Outcome::default();
         let mut relevant = 0;
